@@ -369,6 +369,7 @@ func runC05(c *Ctx) {
 			r.Sample(*tc)
 		}
 	})
+	runC05Conformance(c)
 }
 
 func replayC05(c *Ctx, v report.Violation) {
